@@ -136,18 +136,20 @@ pub fn print_js<'a>(
     }
 }
 
-/// Removes the text of the superseded sourceMappingURL comment, and only that: other text of the
-/// program that merely looks like it (string literals, regular expressions) is left alone.
+/// Removes the text of the superseded sourceMappingURL comment, and only that: other text of the program that merely
+/// looks like it (string literals, regular expressions) is left alone. The comment is the last `//<text>` that runs to the
+/// end of its line, or the last `/*<text>*/`.
 fn remove_comment_text(code: &str, comment: &str) -> String {
-    for opening in ["//", "/*"] {
+    for (opening, closing) in [("//", "\n"), ("/*", "*/")] {
         let needle = format!("{opening}{comment}");
-        if let Some(pos) = code.rfind(needle.as_str()) {
+        let mut end = code.len();
+        while let Some(pos) = code[..end].rfind(needle.as_str()) {
             let text_start = pos + opening.len();
-            return format!(
-                "{}{}",
-                &code[..text_start],
-                &code[text_start + comment.len()..]
-            );
+            let rest = &code[text_start + comment.len()..];
+            if rest.is_empty() || rest.starts_with(closing) || rest.starts_with("\r\n") {
+                return format!("{}{}", &code[..text_start], rest);
+            }
+            end = pos;
         }
     }
     code.to_string()
